@@ -57,6 +57,7 @@ package server
 //@   requires implies(lockManager.locked != 0, lockManager.currentLock != nil && lockManager.currentLock.command != nil)
 //@   ensures C01.admit: implies(result && !unlimitedClass(lockManager, lock), admissible(lockManager, lock))
 //@   ensures C01.admit-unlimited0xffff: implies(result && unlimitedClass(lockManager, lock), admissible(lockManager, lock))
+//@   ensures C04.admit.complete: implies(!result && lock.command.TimeoutFlag&0x4000 == 0, !admissible(lockManager, lock))
 //@   modifies nothing
 
 // ---- C12: log-position order used by the election (server/arbiter.go) ----
@@ -97,7 +98,7 @@ package server
 //@ spec func otherManagersSame(m) = forallref(o, LockManager, implies(o != m, o.locked == old(o.locked) && o.currentLock == old(o.currentLock) && o.waited == old(o.waited) && o.lockKey == old(o.lockKey) && o.refCount == old(o.refCount) && o.currentData == old(o.currentData)))
 
 // the server clock (seconds since the epoch) is far from the int64 range: assumed at the start of every section
-//@ spec func clockSane(db) = db != nil && db.currentTime >= 0 && db.currentTime < 0x10000000000
+//@ spec func clockSane(db) = db != nil && db.currentTime >= 0 && db.currentTime < 0x10000000000 && db.checkTimeoutTime >= 0 && db.checkTimeoutTime < 0x10000000000 && db.checkExpriedTime >= 0 && db.checkExpriedTime < 0x10000000000
 
 // seconds added to "now" by an expiry / timeout value under its unit flags (README: 0x0040 minute, 0x0400 millisecond)
 //@ spec func unitSeconds(v, flag) = ite(flag&0x0400 != 0, v / 1000, ite(flag&0x0040 != 0, v*60, v))
@@ -251,6 +252,7 @@ package server
 //@   requires self != nil && self.freeLocks != nil
 //@   ensures C04.live,C05.notaftertimeout: implies(result != nil, !result.timeouted && result.ackCount == 0xff)
 //@   assumes refDiscipline() && forallref(l, Lock, implies(old(l.refCount) == 0, lockSame(l)))
+//@   assumes implies(result != nil, result.manager == self && result.command != nil && result.locked == 0)
 //@   modifies LockManager.refCount, LockManagerWaitQueue.*, LockManagerRingQueue.*, LockManagerPriorityRingQueue.*, LockManagerPriorityRingQueueNode.*, LockQueue.*, Lock.aofTime, Lock.command, Lock.data, Lock.isAof, Lock.manager, Lock.protocol, Lock.refCount, E_LJPserver_Lock, E_Pserver_Lock, E_Pserver_LockManagerPriorityRingQueueNode, E_int32
 
 // ---- key table (lock-free; DESIGN section 3: linearizability is assumed, not proved) ----
@@ -320,8 +322,10 @@ package server
 
 // ---- timer wheels ----
 //@ func (*LockDB).AddTimeOut
-//@   requires self != nil && lock != nil && lock.manager != nil
+//@   requires clockSane(self) && lock != nil && lock.manager != nil
 //@   ensures C05.armed: !lock.timeouted
+//@   at call LockQueue.Push assert C05.slot: lock.timeoutCheckedCount <= 8 && doTimeoutTime >= self.checkTimeoutTime && doTimeoutTime <= self.checkTimeoutTime + lock.timeoutCheckedCount && (doTimeoutTime <= lock.timeoutTime || doTimeoutTime == self.checkTimeoutTime)
+//@   at call LongWaitLockQueue.Push assert C05.longkey: lock.timeoutCheckedCount > 8 && lock.timeoutTime >= self.checkTimeoutTime && lock.timeoutTime >= old(lock.timeoutTime)
 //@   ensures otherLocksSame(lock) && lock.locked == old(lock.locked) && lock.refCount == old(lock.refCount) && lock.manager == old(lock.manager) && lock.command == old(lock.command) && lock.ackCount == old(lock.ackCount) && lock.expried == old(lock.expried) && lock.isAof == old(lock.isAof) && lock.protocol == old(lock.protocol)
 //@   modifies FastKeyValue.lock, FastKeyValue.manager, LockManager.fastKeyValue, LockQueue.*, Lock.longWaitIndex@lock, Lock.timeoutTime@lock, Lock.timeouted@lock, LongWaitLockFreeQueue.freeIndex, LongWaitLockQueue.*, E_LJPserver_Lock, E_Pserver_Lock, E_Pserver_LongWaitLockQueue, E_int32, MH_mapLL16JbyteJPserver_LockManager, MH_mapLint64JPserver_LongWaitLockQueue, MV_mapLL16JbyteJPserver_LockManager, MV_mapLint64JPserver_LongWaitLockQueue
 
@@ -332,8 +336,11 @@ package server
 //@   modifies LockQueue.*, Lock.longWaitIndex@lock, Lock.timeouted@lock, MillisecondWaitLockFreeQueue.freeIndex, E_LJPserver_Lock, E_Pserver_Lock, E_Pserver_MillisecondWaitLockQueue, E_int32
 
 //@ func (*LockDB).AddExpried
-//@   requires self != nil && lock != nil && lock.manager != nil && lock.command != nil && lock.manager.lockDb != nil
+//@   requires clockSane(self) && lock != nil && lock.manager != nil && lock.command != nil && lock.manager.lockDb != nil
 //@   ensures C06.armed: !lock.expried
+//@   at call LockQueue.Push assert C06.slot: lock.expriedCheckedCount <= 8 && doExpriedTime >= self.checkExpriedTime && doExpriedTime <= self.checkExpriedTime + lock.expriedCheckedCount && (doExpriedTime <= lock.expriedTime || doExpriedTime == self.checkExpriedTime)
+//@   at call LongWaitLockQueue.Push assert C06.longkey: lock.expriedCheckedCount > 8 && lock.expriedTime >= self.checkExpriedTime && lock.expriedTime >= old(lock.expriedTime)
+//@   at call PushLockAof assert C07.persist.when: !lock.isAof && lock.aofTime != 0xff && self.currentTime - lock.startTime >= lock.aofTime
 //@   ensures C06.armed.notearlier: lock.expriedTime >= old(lock.expriedTime)
 //@   loop#1 invariant otherLocksSame(lock) && !lock.expried && lock.locked == old(lock.locked) && lock.refCount == old(lock.refCount) && lock.manager == old(lock.manager) && lock.command == old(lock.command) && lock.ackCount == old(lock.ackCount) && lock.timeouted == old(lock.timeouted) && lock.protocol == old(lock.protocol) && lock.expriedTime >= old(lock.expriedTime)
 //@   ensures otherLocksSame(lock) && lock.locked == old(lock.locked) && lock.refCount == old(lock.refCount) && lock.manager == old(lock.manager) && lock.command == old(lock.command) && lock.ackCount == old(lock.ackCount) && lock.timeouted == old(lock.timeouted) && lock.protocol == old(lock.protocol)
@@ -381,7 +388,7 @@ package server
 // (monitor rule, DESIGN 2.6); it is asserted again at every release of the mutex.
 // =====================================================================================================
 //@ spec func heldWellFormed() = forallref(l, Lock, implies(l.locked > 0, l.manager != nil && l.command != nil && l.manager.lockDb != nil && l.expriedTime >= 0))
-//@ spec func sectionInv(db, m) = clockSane(db) && m != nil && m.lockDb == db && m.glock != nil && m.state != nil && implies(m.locked > 0, m.currentLock != nil && m.currentLock.locked > 0) && implies(m.currentLock != nil, m.currentLock.command != nil && m.currentLock.manager == m) && heldWellFormed()
+//@ spec func sectionInv(db, m) = clockSane(db) && m != nil && m.lockDb == db && m.glock != nil && m.state != nil && implies(m.locked > 0, m.currentLock != nil && m.currentLock.locked > 0) && implies(m.currentLock != nil, m.currentLock.locked > 0 && m.currentLock.command != nil && m.currentLock.manager == m) && heldWellFormed()
 // assumed when a section starts and NOT re-established by the proofs (C17 'refs' accounting): a manager without references holds nothing
 //@ spec func sectionAssumeOnly(m) = implies(m.refCount == 0, m.locked == 0 && m.currentLock == nil && !m.waited)
 //@ spec func engineUntouched(m) = m.locked == atsection(m.locked) && m.waited == atsection(m.waited) && forallref(l, Lock, l.locked == atsection(l.locked) && l.timeouted == atsection(l.timeouted) && l.expried == atsection(l.expried) && l.ackCount == atsection(l.ackCount))
@@ -405,6 +412,7 @@ package server
 //@   at call AddWaitLock assert C01.lock.queuekey: lockManager.lockKey == command.LockKey && lock.manager == lockManager && lock.command == command
 //@   at call ProcessLockResultCommand assert C10.lock.refuse: implies(self.status != STATE_LEADER && old(command.Flag)&0x04 == 0, arg2 == protocol.RESULT_STATE_ERROR || (old(command.Flag)&0x08 != 0 && old(command.Timeout) == 0 && arg2 == protocol.RESULT_TIMEOUT && calls(GetOrNewLockManager) == 0))
 //@   at call ProcessLockResultCommand assert C10.lock.nochange: implies(self.status != STATE_LEADER && old(command.Flag)&0x04 == 0 && calls(GetOrNewLockManager) == 1, engineUntouched(lockManager))
+//@   at call RemoveLongExpried assert C06.lock.movekey: arg2 == atsection(currentLock.expriedTime) && atsection(currentLock.longWaitIndex) > 0
 //@   at call ProcessLockResultCommand assert C17.lock.lcount: implies(calls(GetOrNewLockManager) == 1, arg3 == u16(lockManager.locked))
 //@   ensures C03.lock.atmostone: calls(ProcessLockResultCommand) <= 1 && calls(FreeLockCommand) <= 1
 //@   ensures C03.lock.once: calls(ProcessLockResultCommand) == 1 || calls(AddWaitLock) == 1 || calls(DoAckLock) == 1 || calls(LockDB.Lock) == 1 || (calls(UpdateLockedLock) == 1 && calls(PushLockAof) >= 1) || (calls(AddLock) == 1 && calls(AddTimeOut) + calls(AddMillisecondTimeOut) == 1 && calls(PushLockAof) == 1)
@@ -414,17 +422,44 @@ package server
 //@   modifies all
 
 //@ func (*LockDB).wakeUpWaitLocks
-//@   requires self != nil && lockManager != nil
+//@   requires self != nil && lockManager != nil && lockManager.glock != nil
+//@   at call PriorityMutex.Lock after havoc Lock.*, LockManager.locked, LockManager.currentLock, LockManager.currentData, LockManager.locks, LockManager.waitLocks, LockManager.waited, LockManager.refCount, LockManager.lockKey, LockManager.fastKeyValue, LockManagerLockQueue.*, LockManagerWaitQueue.*, LockQueue.*, protocol.LockDBState.*, LockDB.status, LockDB.currentTime
+//@   at call PriorityMutex.Lock after assume sectionInv(self, lockManager) && lockManager.freeLocks != nil && sectionAssumeOnly(lockManager)
+//@   loop#1 invariant waitLock == nil || (!waitLock.timeouted && waitLock.ackCount == 0xff && waitLock.manager == lockManager && waitLock.command != nil && waitLock.locked == 0)
+//@   loop#1 invariant sectionInv(self, lockManager) && lockManager.freeLocks != nil
+//@   at call wakeUpWaitLock assert C04.wake.admit,C01.wake.admit: admissible(lockManager, waitLock) || unlimitedClass(lockManager, waitLock)
+//@   at call PriorityMutex.Unlock assert C04.wake.stop: waitLock == nil || (!admissible(lockManager, waitLock) || waitLock.command.TimeoutFlag&0x4000 != 0)
 //@   modifies all
+
+//@ func (*LockDB).wakeUpWaitLock
+//@   inline
+//@   at call AddLock assert C01.wake.key,C04.wake.key: waitLock.manager == lockManager && waitLock.locked == 0 && (admissible(lockManager, waitLock) || unlimitedClass(lockManager, waitLock))
+//@   at call ProcessLockData assert C11.wake.recover: arg3 == !waitLock.timeouted
+//@   at call PriorityMutex.Unlock assert C03.wake.tombstone: waitLock.timeouted || waitLock.ackCount != 0xff
 
 //@ func (*LockDB).DoAckLock
 //@   requires self != nil && lock != nil
+//@   at call PriorityMutex.Lock after havoc Lock.*, LockManager.locked, LockManager.currentLock, LockManager.currentData, LockManager.locks, LockManager.waitLocks, LockManager.waited, LockManager.refCount, LockManager.lockKey, LockManager.fastKeyValue, LockManagerLockQueue.*, LockManagerWaitQueue.*, LockQueue.*, protocol.LockDBState.*, LockDB.status, LockDB.currentTime
+//@   at call PriorityMutex.Lock after assume sectionInv(self, lockManager) && lockManager.freeLocks != nil && sectionAssumeOnly(lockManager) && lock.manager == lockManager && implies(lock.ackCount != 0xff, lock.command != nil && lock.protocol != nil && lock.locked == 1)
+//@   at call ProxyServerProtocol.ProcessLockResultCommandLocked assert C11.ack.code: arg2 == ite(atsection(lock.expried) && atsection(lock.locked) != 0, ite(succed, protocol.RESULT_SUCCED, protocol.RESULT_ERROR), protocol.RESULT_LOCKED_ERROR) && arg1 == atsection(lock.command)
+//@   at call RemoveLock assert C11.ack.rollback: !succed && lockManager.locked == u32(atsection(lockManager.locked) - atsection(lock.locked)) && implies(atsection(lock.command.Flag)&0x20 != 0, calls(ProcessRecoverLockData) == 1)
+//@   ensures C03.ack.once,C11.ack.once: calls(ProxyServerProtocol.ProcessLockResultCommandLocked) == ite(atsection(lock.ackCount) == 0xff, 0, 1)
+//@   ensures C11.ack.settled: implies(atsection(lock.ackCount) != 0xff && calls(wakeUpWaitLocks) == 0, lock.ackCount == 0xff)
+//@   ensures C04.ack.wake,C11.ack.wake: implies(calls(RemoveLock) >= 1, calls(wakeUpWaitLocks) >= 1)
 //@   modifies all
-
 
 //@ func (*LockDB).cancelWaitLock
-//@   requires self != nil && lockManager != nil && command != nil
+//@   requires self != nil && lockManager != nil && command != nil && sectionInv(self, lockManager) && lockManager.freeLocks != nil
+//@   loop#1 invariant waitLock == nil || (!waitLock.timeouted && waitLock.command.LockId == command.LockId)
+//@   loop#2 invariant waitLock == nil || (!waitLock.timeouted && waitLock.command.LockId == command.LockId)
+//@   at call RemoveLongTimeOut assume waitLock.manager == lockManager
+//@   at call ProcessLockResultCommand assert C03.cancel.live,C02.cancel.live: implies(arg2 == protocol.RESULT_LOCKED_ERROR, waitLock != nil && !old(waitLock.timeouted) && old(waitLock.command.LockId) == old(command.LockId))
+//@   at call ProcessLockResultCommand assert C02.cancel.codes: arg2 == ite(waitLock == nil, protocol.RESULT_UNLOCK_ERROR, protocol.RESULT_LOCKED_ERROR) && arg1 == command
+//@   at call ProxyServerProtocol.ProcessLockResultCommandLocked assert C02.cancel.cancelled: arg2 == protocol.RESULT_UNLOCK_ERROR && arg1 == old(waitLock.command) && waitLock.timeouted
+//@   ensures C03.cancel.once: calls(ProcessLockResultCommand) == 1 && calls(ProxyServerProtocol.ProcessLockResultCommandLocked) <= 1
+//@   ensures C04.cancel.wake: implies(calls(ProxyServerProtocol.ProcessLockResultCommandLocked) == 1, calls(wakeUpWaitLocks) >= 1)
 //@   modifies all
+
 // unlockTreeLock and addUnlockLockCommandToWaitLock (flags outside the core command subset) carry no contract: they are inlined
 
 // the request's own hold: the LockId matches, or (unlock-first) it is the oldest holder
@@ -443,9 +478,92 @@ package server
 //@   at call ProcessLockResultCommand assert C02.unlock.ends: implies(arg2 == protocol.RESULT_SUCCED, (currentLock.locked == 0) == (calls(RemoveLock) == 1))
 //@   at call ProcessLockResultCommand assert C17.unlock.lcount: implies(lockManager != nil, arg3 == u16(lockManager.locked)) && implies(arg2 == protocol.RESULT_SUCCED, arg4 == currentLock.locked)
 //@   at call ProcessLockData assert C15.unlock.capture: calls(GetLockData) >= 1
+//@   at call RemoveLongExpried assert C06.unlock.movekey: arg2 == atsection(currentLock.expriedTime) && atsection(currentLock.longWaitIndex) > 0
 //@   at call wakeUpWaitLocks assert C17.unlock.counter: u32(lockManager.state.LockedCount - atsection(lockManager.state.LockedCount)) == u32(lockManager.locked - atsection(lockManager.locked))
 //@   ensures C03.unlock.atmostone: calls(ProcessLockResultCommand) <= 1
 //@   ensures C03.unlock.once: calls(ProcessLockResultCommand) == 1 || calls(cancelWaitLock) == 1 || calls(LockDB.UnLock) == 1 || calls(unlockTreeLock) == 1
 //@   ensures C03.unlock.handoff: implies(calls(cancelWaitLock) + calls(LockDB.UnLock) >= 1, calls(ProcessLockResultCommand) == 0)
 //@   ensures C04.unlock.wake: implies(calls(wakeUpWaitLocks) == 0 && calls(cancelWaitLock) == 0 && calls(LockDB.UnLock) == 0 && lockManager != nil, lockManager.locked == atsection(lockManager.locked))
+//@   modifies all
+
+//@ func (*LockDB).doExpried
+//@   requires self != nil && lock != nil && lock.manager != nil && lock.manager.glock != nil
+//@   at call PriorityMutex.Lock after havoc Lock.*, LockManager.locked, LockManager.currentLock, LockManager.currentData, LockManager.locks, LockManager.waitLocks, LockManager.waited, LockManager.refCount, LockManager.lockKey, LockManager.fastKeyValue, LockManagerLockQueue.*, LockManagerWaitQueue.*, LockQueue.*, protocol.LockDBState.*, LockDB.status, LockDB.currentTime
+//@   at call PriorityMutex.Lock after assume sectionInv(self, lockManager) && lockManager.freeLocks != nil && sectionAssumeOnly(lockManager) && lock.manager == lockManager && implies(!lock.expried, lock.command != nil && lock.protocol != nil && lock.locked > 0 && lock.locked <= lockManager.locked)
+//@   at call RemoveLock assert C06.expire.capacity,C01.expire.capacity: lockManager.locked == u32(atsection(lockManager.locked) - atsection(lock.locked)) && !atsection(lock.expried)
+//@   at call RemoveLock assert C10.expire.follower: forcedExpried || self.status == STATE_LEADER || !atsection(lock.isAof) || (atsection(lock.expriedTime) > 0 && self.currentTime - atsection(lock.expriedTime) >= 300)
+//@   at call AddExpried assert C10.expire.rearm: !forcedExpried && ((self.status != STATE_LEADER && atsection(lock.isAof) && lock.expriedTime == self.currentTime + 30) || atsection(lock.command.ExpriedFlag)&0x8000 != 0)
+//@   at call ProxyServerProtocol.ProcessLockResultCommandLocked assert C03.expire.notice,C06.expire.notice: arg2 == protocol.RESULT_EXPRIED && arg1 == atsection(lock.command) && calls(RemoveLock) == 1
+//@   at call wakeUpWaitLocks assert C17.expire.counter: u32(lockManager.state.LockedCount - atsection(lockManager.state.LockedCount)) == u32(lockManager.locked - atsection(lockManager.locked))
+//@   ensures C03.expire.once: calls(ProxyServerProtocol.ProcessLockResultCommandLocked) <= 1 && implies(atsection(lock.expried), calls(ProxyServerProtocol.ProcessLockResultCommandLocked) == 0 && calls(RemoveLock) == 0)
+//@   ensures C04.expire.wake,C06.expire.wake: implies(calls(RemoveLock) >= 1, calls(wakeUpWaitLocks) >= 1)
+//@   modifies all
+
+//@ func (*LockDB).doTimeOut
+//@   requires self != nil && lock != nil && lock.manager != nil && lock.manager.glock != nil
+//@   at call PriorityMutex.Lock after havoc Lock.*, LockManager.locked, LockManager.currentLock, LockManager.currentData, LockManager.locks, LockManager.waitLocks, LockManager.waited, LockManager.refCount, LockManager.lockKey, LockManager.fastKeyValue, LockManagerLockQueue.*, LockManagerWaitQueue.*, LockQueue.*, protocol.LockDBState.*, LockDB.status, LockDB.currentTime
+//@   at call PriorityMutex.Lock after assume sectionInv(self, lockManager) && lockManager.freeLocks != nil && sectionAssumeOnly(lockManager) && lock.manager == lockManager && implies(!lock.timeouted, lock.command != nil && lock.protocol != nil && lock.locked <= lockManager.locked)
+//@   at call AddTimeOut assert C18.timeout.keeplive,C05.timeout.keeplive: !forcedExpried && atsection(lock.command.TimeoutFlag)&0x8000 != 0 && stream != nil && !stream.closed
+//@   at call ProxyServerProtocol.ProcessLockResultCommandLocked assert C03.timeout.reply,C05.timeout.reply: arg2 == protocol.RESULT_TIMEOUT && arg1 == atsection(lock.command) && !atsection(lock.timeouted) && lock.timeouted
+//@   at call RemoveLock assert C11.timeout.rollback: lockManager.locked == u32(atsection(lockManager.locked) - atsection(lock.locked))
+//@   ensures C03.timeout.once,C05.timeout.once: calls(ProxyServerProtocol.ProcessLockResultCommandLocked) <= 1 && implies(atsection(lock.timeouted), calls(ProxyServerProtocol.ProcessLockResultCommandLocked) == 0)
+//@   ensures C04.timeout.wake: implies(calls(RemoveLock) >= 1, calls(wakeUpWaitLocks) >= 1)
+//@   ensures C04.timeout.wake-waiter: implies(calls(ProxyServerProtocol.ProcessLockResultCommandLocked) == 1 && calls(RemoveLock) == 0, calls(wakeUpWaitLocks) >= 1)
+//@   modifies all
+
+// what the sweepers rely on for every entry they pop from a wheel or table (membership invariant of the wheels: assumed)
+//@ spec func wheelEntry(db, l) = l.manager != nil && l.manager.glock != nil && l.manager.state != nil && l.manager.freeLocks != nil && l.manager.lockDb == db
+
+// ---- sweepers: a request / hold is only handed to doTimeOut / doExpried once its deadline has passed ----
+//@ func (*LongWaitLockQueue).Push
+//@   trusted queue internals (long-wait table), subject of C20
+//@   modifies LongWaitLockQueue.*, LockQueue.*, Lock.longWaitIndex@lock, E_LJPserver_Lock, E_Pserver_Lock, E_int32
+//@ func (*LockQueue).Pop
+//@   trusted queue internals, subject of C20
+//@   ensures forallref(l, Lock, lockSame(l))
+//@   modifies LockQueue.*, E_LJPserver_Lock, E_Pserver_Lock, E_int32
+//@ func (*LockQueue).Rellac
+//@   trusted queue internals, subject of C20
+//@   modifies LockQueue.*, E_LJPserver_Lock, E_Pserver_Lock, E_int32
+//@ func (*LongWaitLockQueue).Pop
+//@   trusted queue internals (long-wait table), subject of C20
+//@   modifies LongWaitLockQueue.*, LockQueue.*, Lock.longWaitIndex, E_LJPserver_Lock, E_Pserver_Lock, E_int32
+//@ func (*LongWaitLockQueue).Len
+//@   trusted queue internals (long-wait table), subject of C20
+//@   modifies nothing
+
+//@ func (*LockDB).checkTimeTimeOut
+//@   requires clockSane(self)
+//@   at call LockQueue.Pop after assume implies(callresult != nil, wheelEntry(self, callresult))
+//@   at call LongWaitLockQueue.Pop after assume implies(callresult != nil, wheelEntry(self, callresult))
+//@   at call PriorityMutex.HighPriorityLock after assume clockSane(self)
+//@   at call LockQueue.Push assert C05.neverearly: !lock.timeouted && implies(calls(LongWaitLockQueue.Len) == 0, lock.timeoutTime <= now)
+//@   at call AddTimeOut assert C05.recheck: !lock.timeouted && lock.timeoutTime > now
+//@   loop#1 invariant clockSane(self) && (lock == nil || (wheelEntry(self, lock)))
+//@   loop#2 invariant clockSane(self)
+//@   loop#3 invariant lock == nil || wheelEntry(self, lock)
+//@   modifies all
+
+//@ func (*LockDB).checkTimeExpried
+//@   requires clockSane(self)
+//@   at call LockQueue.Pop after assume implies(callresult != nil, wheelEntry(self, callresult) && implies(!callresult.expried, callresult.command != nil))
+//@   at call LongWaitLockQueue.Pop after assume implies(callresult != nil, wheelEntry(self, callresult) && implies(!callresult.expried, callresult.command != nil))
+//@   at call PriorityMutex.HighPriorityLock after assume clockSane(self)
+//@   at call LockQueue.Push assert C06.neverearly: !lock.expried && implies(calls(LongWaitLockQueue.Len) == 0, lock.expriedTime <= now)
+//@   at call AddExpried assert C06.recheck: !lock.expried && lock.expriedTime > now
+//@   loop#1 invariant clockSane(self) && (lock == nil || (wheelEntry(self, lock) && implies(!lock.expried, lock.command != nil)))
+//@   loop#2 invariant clockSane(self)
+//@   loop#3 invariant lock == nil || wheelEntry(self, lock)
+//@   modifies all
+
+//@ func (*LockDB).checkTimeOut
+//@   requires self != nil
+//@   at call checkTimeTimeOut assert C05.sweep.range: arg1 <= arg2 && arg2 == now
+//@   at call checkTimeTimeOut assert C05.sweep.next: self.checkTimeoutTime == i64(now + 1)
+//@   modifies all
+
+//@ func (*LockDB).checkExpried
+//@   requires self != nil
+//@   at call checkTimeExpried assert C06.sweep.range: arg1 <= arg2 && arg2 == now
+//@   at call checkTimeExpried assert C06.sweep.next: self.checkExpriedTime == i64(now + 1)
 //@   modifies all
